@@ -747,18 +747,31 @@ func genScript(r *common.Rand, big bool) *scriptCase {
 		if c.Max < c.Min {
 			c.Max = c.Min + int64(r.Intn(1000))*2
 		}
-		// aim at the span the call can take
-		span := int64(1)
+		// aim at the span the call can take (walk the script with the table)
+		span := int64(2)
 		for i, b := range c.Script {
 			span += b.Lat
-			if i <= c.MaxRetry {
-				span += (c.Min + c.Max) / 2
+			if i < c.MaxRetry {
+				d := c.Dflt
+				if i < len(c.Tbl) {
+					d = c.Tbl[i]
+				}
+				if d < c.Min {
+					d = c.Min
+				}
+				if d > c.Max {
+					d = c.Max
+				}
+				span += d
+			}
+			if !retryableTruth(b) && !(b.Code == 401 && c.Op == "A") {
+				break
 			}
 		}
 		if span > 1<<40 {
 			span = 1 << 40
 		}
-		c.Cancel = int64(r.U64()%uint64(span))/2*2 + 1
+		c.Cancel = int64(r.U64()%uint64(span+span/4))/2*2 + 1
 		c.Deadline = r.Chance(1, 3)
 	}
 	return c
@@ -779,8 +792,10 @@ func genPoint(r *common.Rand) *pointCase {
 		c.Which = "D"
 	}
 	c.MaxRetry = common.Pick(r, []int{0, 1, 3, 5, 5, 10, 40, 80, 80, -1})
-	c.Attempt = r.Intn(maxInt(c.MaxRetry, 1) + 2)
-	if r.Chance(1, 10) {
+	c.Attempt = r.Intn(maxInt(c.MaxRetry, 1))
+	if r.Chance(1, 8) {
+		c.Attempt = c.MaxRetry + r.Intn(3)
+	} else if r.Chance(1, 10) {
 		c.Attempt = r.Intn(75)
 	}
 	if c.Which == "D" {
@@ -813,6 +828,40 @@ func genPoint(r *common.Rand) *pointCase {
 		c.Out = behaviour{Kind: "S", Code: 429, RetryAfter: common.Pick(r, retryAfterPool), Read: -1}
 	}
 	return c
+}
+
+var enumAlphabet = []behaviour{
+	{Kind: "S", Code: 503, Read: -1}, {Kind: "S", Code: 429, RetryAfter: "1", Read: 2, Lat: 10}, {Kind: "TO", Read: -1, Lat: 6}, {Kind: "ER", Read: 1},
+	{Kind: "S", Code: 401, Chal: 1, Read: -1}, {Kind: "S", Code: 401, Chal: 2, Read: 3, Lat: 4}, {Kind: "S", Code: 200, Read: -1}, {Kind: "S", Code: 404, Read: 0},
+}
+
+func enumScripts(t *testing.T, maxLen int) {
+	var rec func(prefix []behaviour)
+	rec = func(prefix []behaviour) {
+		if len(prefix) > 0 {
+			for _, op := range []string{"T", "A"} {
+				for _, body := range []string{"N", "R", "O", "G1"} {
+					c := &scriptCase{Op: op, MaxRetry: 2, Min: 100, Max: 1000, Tbl: []int64{50, 5000}, Dflt: 300, Cancel: -1, Body: body,
+						Script: append([]behaviour(nil), prefix...)}
+					if body != "N" {
+						c.Data = "0102030405"
+					}
+					scriptCaseRun(t, c)
+					run.Count("enumerated")
+				}
+			}
+		}
+		if len(prefix) == maxLen {
+			return
+		}
+		for _, b := range enumAlphabet {
+			if b.Kind == "S" && b.Code == 401 && false {
+				continue
+			}
+			rec(append(prefix, b))
+		}
+	}
+	rec(nil)
 }
 
 // ---------------------------------------------------------------- entry point
@@ -879,6 +928,8 @@ func TestVerif(t *testing.T) {
 			pointCaseRun(&pointCase{Op: "B", Which: "D", FDen: 1, JDen: 1, Attempt: att, Out: o})
 		}
 	}
+	// small-scope exhaustive: every sequence of server behaviours up to a length, every body kind, both stacks
+	enumScripts(t, run.Scale(3, 5))
 	nScripts := run.Scale(2500, 60000)
 	nPoints := run.Scale(20000, 1000000)
 	nBig := run.Scale(6, 60)
